@@ -114,7 +114,10 @@ theorem secondary_applies_set (T : Node) (link : Sid) (id : Nat) (d k v : Bytes)
     have := replicateRequest_frame (n1.setDb db1) (Request.replicateSet d k v ver) (T.session link).db r1
     rw [hrr] at this
     exact ⟨this.1, by rw [this.2.1]; exact hss⟩
-  simp only [Node.processObj]
+  have hnoenv : Bytes.startsWith (Bytes.trimBoth 10 (replicateMsg d k v ver)) b!"rp " = false := by
+    rw [trimBoth_id 10 _ (by rw [replicateMsg_shape]; simp) hmsg10, replicateMsg_shape]
+    simp [Bytes.startsWith]
+  simp only [Node.processObj, hnoenv, Bool.false_eq_true, if_false]
   generalize hin : Node.recurOf (fuel + 1) T link (replicateMsg d k v ver) = res at inner
   obtain ⟨n1, r1, e1⟩ := res
   simp only []
